@@ -279,6 +279,19 @@ def _check_day(out, dt, ymd, dt2str, y, m, d):
                          spelling='ymd(list of spellings)', day=D.klass)
         except Exception as e:
             out.viol('raised', 'dt / ymd([datetime, %r, np.datetime64, pd.Timestamp, datetime]) raised %s: %s' % (s_us, type(e).__name__, e), spelling='list of spellings', day=D.klass)
+        # a list of plain datetimes is the caller's object: ymd of it returns the dates, the list keeps its times of day
+        out.sub()
+        own = [DATETIME(y, m, d, H, M, S, U), DATETIME(y, m, d, H, M, S, U)]
+        try:
+            g3 = ymd(own)
+            g4 = dt(own)
+            out.call(2)
+            if not (isinstance(g3, list) and all(isinstance(g, DATETIME) and g == t0 for g in g3) and len(g3) == 2):
+                out.viol('wrong-datetime', 'ymd([t, t]) with t = %r [list of datetimes]: expected [%r, %r], observed %r' % (t, t0, t0, g3), spelling='ymd(list of datetimes)', day=D.klass)
+            elif not all(isinstance(g, DATETIME) and g == t for g in own) or not (isinstance(g4, list) and all(g == t for g in g4)):
+                out.viol('argument-modified', 'after ymd(L) with L = [t, t], t = %r: L is now %r and dt(L) = %r' % (t, own, g4), spelling='ymd(list of datetimes)', day=D.klass)
+        except Exception as e:
+            out.viol('raised', 'ymd / dt([t, t]) with t = %r raised %s: %s' % (t, type(e).__name__, e), spelling='ymd(list of datetimes)', day=D.klass)
         # ymd drops the time of day
         same('ymd(datetime+time)', 'ymd(%r)' % (t,), t0, ymd, DATETIME(y, m, d, H, M, S, U))
         same('ymd(pd.Timestamp+time)', 'ymd(pd.Timestamp(%r))' % (t,), t0, ymd, pd.Timestamp(t))
